@@ -72,9 +72,9 @@ SPEC = {
     "attribute": attribute,
     "extra": extra,
     "level": "proof",
-    "rule": "16 directive combinations (auto_newline_off x auto_ws_off x allow_unmatched x one/two scanner states) x 2 (quick) / 4 (thorough) "
+    "rule": "16 directive combinations (auto_newline_off x auto_ws_off x allow_unmatched x one/two scanner states) x 2 (quick) / 6 (thorough) "
             "grammar variants (random comment directives) x [7 documented witness texts (`a\\nb`, `a\\r\\nb`, `a\\rb`, `a ?? b`, `a ??`, `\\n`, empty) + "
-            "25 / 120 random texts of sentence pieces and stray characters (LF, CR, CRLF, NUL, DEL, NEL, U+2028, VT, non-ASCII, comment "
+            "25 / 500 random texts of sentence pieces and stray characters (LF, CR, CRLF, NUL, DEL, NEL, U+2028, VT, non-ASCII, comment "
             "fragments; U+10FFFF in one dedicated text per combination)], k = 1..3; non-trivial = non-empty text; distinct = distinct request lines",
     "assumptions": [
         "scanner-level part only: that a token of the error type (last terminal index, in no production) makes an LL or LR parse fail, and that gap tokens end up in the parse tree, is the parser-level part checked elsewhere",
